@@ -87,7 +87,7 @@ GPolicy == WithPolicy /\ held = {} /\
 
 (* C20: management operations thrown in concurrently (free-running mode only; they do not change
    the property-layer state that the C20 invariants look at) *)
-(* ResetBurst = three hard ResetPeer calls on one neighbour back to back (the second and third meet the
+(* ResetBurst = five hard ResetPeer calls on one neighbour back to back (the later ones meet the
    session while it is going down), drawn three times as often as the other kinds *)
 OpSeq == <<"ListPath", "ListPeer", "WatchStart", "WatchStop", "Disable", "Enable", "DelPeer", "AddPeer",
            "ResetBurst", "ResetBurst", "ResetBurst">>
